@@ -172,6 +172,16 @@ impl Clone for CowStr {
 pub fn cow_borrowed(s: &str) -> (r: CowStr) ensures r.bytes() == str_bytes(s)
 { unimplemented!() }
 
+// `std::num::NonZeroU64` (BTOR2 node ids): a u64 that is not zero (R11)
+#[derive(Clone, Copy)]
+pub struct Nz64 { pub v: u64 }
+impl Nz64 {
+    pub fn new(n: u64) -> (r: Option<Nz64>)
+        ensures (r is Some) == (n != 0), r matches Some(x) ==> x.v == n
+    { if n != 0 { Some(Nz64 { v: n }) } else { None } }
+    pub fn get(self) -> (r: u64) ensures r == self.v { self.v }
+}
+
 // ------------------------------------------------------------------ iterator adapters (R6): verified helpers
 pub open spec fn count_of(s: Seq<u8>, c: u8) -> nat
     decreases s.len()
